@@ -189,4 +189,86 @@ def stats (l : List Rat) : Stats :=
 /-- support written on a node of a target tree whose split is `s`: the frequency, or a percentage -/
 def supportOf (sd : SD) (asPercent : Bool) (s : Int) : Rat := if asPercent then freq sd s * 100 else freq sd s
 
+/-! ### maximum credibility as the driver reports it -/
+
+/-- index of the maximum-sum-of-support tree (`calculate_sum_of_split_supports`): first maximum of the per-tree scores -/
+def mccSum (sd : SD) (inclExternal : Bool) (ts : List TreeRec) : Option Nat := argmaxFirst (ts.map (sumSupport sd inclExternal))
+/-- index of the maximum-product-of-support tree (`calculate_log_product_of_split_supports`) -/
+def mccProd (sd : SD) (inclExternal : Bool) (ts : List TreeRec) : Option Nat := argmaxFirst (ts.map (prodSupport sd inclExternal))
+
+/-! ### the frequency and summary caches of `SplitDistribution`
+
+`_split_freqs` is recalculated by `_get_split_frequencies` when it is `None` or `_trees_counted_for_freqs` differs from
+`total_trees_counted`; `calc_freqs` also drops the summary table.  `_split_edge_length_summaries` is recalculated when it is `None`
+or `_trees_counted_for_summaries` (which the code never advances) differs from `total_trees_counted`. -/
+
+structure Cached where
+  sd : SD
+  freqs : Option (List (Int × Rat)) := none
+  countedForFreqs : Nat := 0
+  summaries : Option (List (Int × Stats)) := none
+  ages : Option Unit := none          -- `_split_node_age_summaries`: present or not (its content is not modelled)
+  countedForSummaries : Nat := 0      -- ONE counter for both summary tables; the code never advances it
+
+/-- the table `calc_freqs` builds -/
+def freqTable (sd : SD) : List (Int × Rat) := sd.counts.map (fun p => (p.1, freq sd p.1))
+/-- the table `calc_split_edge_length_summaries` builds (splits with an empty value list are skipped) -/
+def summaryTable (sd : SD) : List (Int × Stats) := (sd.lengths.filter (fun p => !p.2.isEmpty)).map (fun p => (p.1, stats p.2))
+
+def lookupIn {α : Type} (d : List (Int × α)) (k : Int) : Option α := (d.find? (fun p => p.1 == k)).map (·.2)
+
+/-- `count_splits_on_tree`: the tables are NOT touched -/
+def Cached.add (c : Cached) (t : TreeRec) : Cached := { c with sd := countTree c.sd t }
+/-- `calc_freqs` -/
+def Cached.calcFreqs (c : Cached) : Cached :=
+  { c with freqs := some (freqTable c.sd), countedForFreqs := c.sd.total, summaries := none, ages := none }
+/-- `_get_split_frequencies` -/
+def Cached.getFreqs (c : Cached) : Cached × List (Int × Rat) :=
+  match c.freqs with
+  | some tbl => if c.countedForFreqs != c.sd.total then (c.calcFreqs, freqTable c.sd) else (c, tbl)
+  | none => (c.calcFreqs, freqTable c.sd)
+/-- `_get_split_edge_length_summaries` -/
+def Cached.getSummaries (c : Cached) : Cached × List (Int × Stats) :=
+  match c.summaries with
+  | some tbl => if c.countedForSummaries != c.sd.total then ({ c with summaries := some (summaryTable c.sd) }, summaryTable c.sd) else (c, tbl)
+  | none => ({ c with summaries := some (summaryTable c.sd) }, summaryTable c.sd)
+
+/-- `_get_split_node_age_summaries`: same test, same (shared) counter -/
+def Cached.getAges (c : Cached) : Cached :=
+  match c.ages with
+  | some _ => if c.countedForSummaries != c.sd.total then { c with ages := some () } else c
+  | none => { c with ages := some () }
+
+/-- one step of a client's history -/
+inductive Ev where
+  | add (t : TreeRec)          -- count one more tree
+  | freq (s : Int)             -- `sd[s]`
+  | summ (s : Int)             -- `sd.split_edge_length_summaries.get(s)`
+  | ages                       -- `sd.split_node_age_summaries` read (answer not modelled)
+
+inductive Ans where
+  | freq (q : Rat)
+  | summ (o : Option Stats)
+
+def Cached.step (c : Cached) : Ev → Cached × Option Ans
+  | .add t => (c.add t, none)
+  | .freq s => let r := c.getFreqs; (r.1, some (.freq ((lookupIn r.2 s).getD 0)))
+  | .summ s => let r := c.getSummaries; (r.1, some (.summ (lookupIn r.2 s)))
+  | .ages => (c.getAges, none)
+
+/-- the answers a client sees over a history, through the caches -/
+def Cached.run (c : Cached) : List Ev → List Ans
+  | [] => []
+  | e :: es => match (c.step e).2 with
+    | some a => a :: Cached.run (c.step e).1 es
+    | none => Cached.run (c.step e).1 es
+
+/-- the answers the statement prescribes: computed afresh from all trees counted so far -/
+def specRun (sd : SD) : List Ev → List Ans
+  | [] => []
+  | .add t :: es => specRun (countTree sd t) es
+  | .freq s :: es => .freq (freq sd s) :: specRun sd es
+  | .summ s :: es => .summ (lookupIn (summaryTable sd) s) :: specRun sd es
+  | .ages :: es => specRun sd es
+
 end DendroModel.C05
